@@ -58,6 +58,8 @@ func suiteNode(c *Ctx) {
 		net.run(prof)
 		c.Class(fmt.Sprintf("scenario/honest/n%d", n))
 	}
+	scenarioD5Fork(c)
+	c.Class("scenario/d5-fork")
 	// adversarial scenarios: Byzantine members of total weight <= f, all strategies
 	nadv := 60
 	if c.Thorough() {
@@ -226,5 +228,53 @@ func scenarioElectedWhileBehind(c *Ctx, n int, inst uint64, cancelKind int) *Net
 	}
 	L.CancelDuring = 0
 	net.pool = nil
+	return net
+}
+
+// d5-fork: the known finding D5 driven to a fork. Weights (1,2,3,4): W=10, f=3, Q=7; the only
+// Byzantine member is member 1 (weight 2 <= f), leader of view 1. View 0 decides X at member 0
+// only; members 2 and 3 (prepared on X) time out; the Byzantine leader of view 1 sends them a bare
+// PREPREPARE(v=1, Y) — no NEW_VIEW — and they decide Y.
+func scenarioD5Fork(c *Ctx) *Net {
+	net := NewNet(c, NetOpts{N: 4, Weights: []uint64{1, 2, 3, 4}, ByzIdx: []int{1}, Inst: 100}, "d5-fork weights=[1 2 3 4] byz=[1]")
+	net.start()
+	n0, n2, n3 := net.nodes[string(memberId(0))], net.nodes[string(memberId(2))], net.nodes[string(memberId(3))]
+	typ := func(f *Flight) string { return fmt.Sprintf("%T", interfaces.ToConsensusMessage(f.Raw)) }
+	deliverWhere := func(pred func(f *Flight) bool) {
+		for {
+			idx := -1
+			for i, f := range net.pool {
+				if pred(f) {
+					idx = i
+					break
+				}
+			}
+			if idx < 0 {
+				return
+			}
+			f := net.pool[idx]
+			net.pool = append(net.pool[:idx], net.pool[idx+1:]...)
+			net.deliverFlight(f)
+		}
+	}
+	is := func(to *RealNode, t string) func(f *Flight) bool {
+		return func(f *Flight) bool { return string(f.To) == string(to.Id) && typ(f) == t }
+	}
+	// proposal and PREPAREs reach everybody; COMMITs of 2 and 3 reach only member 0
+	deliverWhere(func(f *Flight) bool { return typ(f) == "*interfaces.PreprepareMessage" })
+	deliverWhere(func(f *Flight) bool { return typ(f) == "*interfaces.PrepareMessage" })
+	deliverWhere(is(n0, "*interfaces.CommitMessage"))
+	net.pool = nil // everything else of view 0 is lost
+	// members 2 and 3 time out and vote for view 1 (their votes carry the lock on X and go to the Byzantine leader)
+	net.timeout(n2, false)
+	net.timeout(n3, false)
+	net.pool = nil
+	// the Byzantine leader of view 1 answers with a bare PREPREPARE for another block
+	y := net.adv.newBlock(1, false)
+	pp := net.adv.mkPP(memberId(1), 100, 1, 1, y)
+	net.adv.inject(n2, pp, "bare-pp-gt0")
+	net.adv.inject(n3, pp, "bare-pp-gt0")
+	deliverWhere(func(f *Flight) bool { return typ(f) == "*interfaces.PrepareMessage" && string(f.To) != string(n0.Id) })
+	deliverWhere(func(f *Flight) bool { return typ(f) == "*interfaces.CommitMessage" && string(f.To) != string(n0.Id) })
 	return net
 }
